@@ -170,8 +170,10 @@ class AirTouchSocket(Generic[comms.Hdr]):
     async def open_socket(self) -> None:
         """Open the socket to the AirTouch."""
         if not self.is_open:
-            self._schedule(self._connect())
+            # Marked open before the connection attempt is scheduled: with eager
+            # task execution the attempt starts running right here.
             self.is_open = True
+            self._schedule(self._connect())
 
     async def close(self) -> None:
         """Close the socket to the AirTouch."""
